@@ -71,7 +71,7 @@ fn typed_and_reply(rng: &mut Rng) -> (TypedOp, Vec<u8>) {
 
 /// every typed method at the sizes where a convenience wrapper could take a different path
 /// (one element, a byte boundary, the protocol maximum)
-fn typed_boundary_ops(rng: &mut Rng) -> Vec<(TypedOp, Vec<u8>)> {
+pub fn typed_boundary_ops(rng: &mut Rng) -> Vec<(TypedOp, Vec<u8>)> {
     use Response::*;
     let mut v = vec![];
     for n in [1usize, 8, 9, 2000] {
@@ -94,11 +94,11 @@ fn typed_boundary_ops(rng: &mut Rng) -> Vec<(TypedOp, Vec<u8>)> {
     }
     let (a, w) = (rng.u16(), rng.u16());
     v.push((TypedOp::Wsr(a, w), spec::response_bytes(&WriteSingleRegister(a, w)).unwrap()));
-    for n in [1usize, 8, 9, 1968] {
+    for n in [0usize, 1, 8, 9, 1968, 1976] {
         let a = rng.u16();
         v.push((TypedOp::Wmc(a, rng.bits(n)), spec::response_bytes(&WriteMultipleCoils(a, n as u16)).unwrap()));
     }
-    for n in [1usize, 2, 123] {
+    for n in [0usize, 1, 2, 123] {
         let a = rng.u16();
         v.push((TypedOp::Wmr(a, rng.words(n)), spec::response_bytes(&WriteMultipleRegisters(a, n as u16)).unwrap()));
     }
